@@ -332,13 +332,14 @@ class C04(Spec):
     level_text = ('Theorems C04_refines_list_{array,list,tuple}: for every history of push, pop, push_at, pop_at, set, rem, concat, append, resize, '
                   'sort, assign whose arguments are in range for the type, the model of the container holds exactly the abstract sequence, raises '
                   'nothing, and len / get with positive and negative indices / mem / forward and backward iteration agree with it (Tuple: under '
-                  'distinct element pointers, known finding F13 otherwise); C04_sort_perm and C04_sort_sorted: the middle-pivot Lomuto quicksort '
+                  'distinct element pointers, known finding F13 otherwise; arguments not aliased with the target, known findings KF-C04-self-assign/-concat otherwise, '
+                  'each with a _refuted theorem on a concrete witness); C04_sort_perm and C04_sort_sorted: the middle-pivot Lomuto quicksort '
                   'leaves a permutation, ordered for every strict weak order; C04_capacity: nitems <= nslots in every reachable Array state; '
                   'rem deletes the first equal element. The model is compared with the real containers after every operation of thousands of '
                   'generated histories (all index values, every growth and shrink step, duplicates, adversarial sort inputs).')
     level_note = ('Trusted: Lean kernel; the hand-written model lean/Cello/Seq.lean + Sort.lean is tied to the C code by testing only (white-box '
                   'differential runs), not by proof; element types in the correspondence are Int and String, heap Tuples of Int objects. Not covered: '
-                  'aliased arguments (concat/assign of a container with itself), stack Tuples, Terminal stored as an element, lengths >= 2^63, '
+                  'aliased arguments (concat/assign of a container with itself: known findings, modelled and refuted), stack Tuples, Terminal stored as an element, lengths >= 2^63, '
                   'allocation failure.')
     rule = ('op files over 16 container slots of kinds Array<Int>, List<Int>, heap Tuple of Int objects, Array<String>, List<String>: '
             '(a) random histories of all operations (indices uniform in -len..len-1 with 12% out of range, values from a 10-value domain / key*256+tag / wide), '
@@ -353,8 +354,9 @@ class C04(Spec):
     trusted_base = ('lean/Cello/Seq.lean, lean/Cello/Sort.lean: hand-written model of Array.c, List.c, Tuple.c (tied to the code by the differential runs only)',
                     'harness/h_seq.c + lean/Driver/Seq.lean (correspondence is testing; the reference array in the harness is the direct oracle)',
                     'malloc/realloc/memmove (libc) are modelled as list surgery, not verified')
-    assumptions = ('arguments are not aliased: concat(x, x) and assign(x, x) are not generated (Array_Assign / List_Assign clear self before reading obj; '
-                   'concat of a container with itself iterates over storage it is growing)',
+    assumptions = ('arguments are not aliased: concat(x, x) and assign(x, x) are not generated and are refused as bad-op by harness and driver '
+                   '(known findings KF-C04-self-assign / KF-C04-self-concat: Array_Assign / List_Assign clear self before reading obj; concat of a '
+                   'container with itself iterates over storage it is growing); their witnesses run as `kfself` ops in a forked child',
                    'Tuple elements are distinct objects (a Tuple holding the same pointer twice is known finding F13: iteration and mem do not terminate); '
                    'ops that would store a pointer twice are refused by harness and driver alike',
                    'Terminal is never stored as a Tuple element; Tuples are heap Tuples',
